@@ -423,6 +423,22 @@ const GO_INVALID: &[&[&str]] = &[
     &["--null-keyword=NIL", "--style=pretty", "-o", "text"],
     // a duplicate --set with another definition in between
     &["--set", "dupa=1", "--set", "dupb=2", "--set", "dupa=3"],
+    // the same name spelled with blanks around it
+    &["--set", "rate =1", "--set", "rate=2"],
+    &["--set", "@mac=.", "--set", " @mac=.id"],
+    // a direction glued to a selection that ends by itself
+    &["--sort-by=(size .arr)DESC"],
+    &["--sort-by=\"k\"asc"],
+    &["--sort-by=5asc"],
+    // an index step no machine integer holds
+    &["--select", "#18446744073709551616=v"],
+    &["--filter=.arr#99999999999999999999"],
+    &["--sort-by=.arr#18446744073709551616"],
+    // quote characters a shell would have eaten; a string step that never ends
+    &["--filter=(> .n 0)'"],
+    &["--select", "'(size .arr)=x"],
+    &["--select", ".s.\"first=x"],
+    &["--group-by=.\"o"],
 ];
 
 impl Property for C20 {
